@@ -55,8 +55,10 @@ Theorem C13_no_growth_counts :
 Proof. exact no_growth_counts. Qed.
 
 (** Fresh values, under the guard: when the solver is called the object [x] and the expressions it
-    refers to hold no cache.  After the finite solve and any ops that neither solve nor create a leaf
-    point, [eval] returns the cache-free value of [x] over the leaf tables, which are solution k. *)
+    refers to hold no cache.  After the finite solve and ANY ops that do not solve again (leaf points
+    may be created since the repair e997f00), [eval] returns the cache-free value of [x] over the leaf
+    tables, which are solution k followed by unassigned new leaves.  Only the empty combination
+    [KPoint []] is excluded (F-C02b). *)
 Theorem C13_fresh_partial :
   forall ops0 sol ops x o,
     let s := final ops0 in
@@ -64,10 +66,10 @@ Theorem C13_fresh_partial :
     let s2 := fst (run (solve s (Some sol)) ops) in
     clean (es (prepare s)) x -> x < length (objs (es (solve s (Some sol)))) ->
     forallb quiet ops = true ->
-    get_obj (es s2) x = Some o ->
+    get_obj (es s2) x = Some o -> okind_of o <> KPoint [] ->
     snd (eval_obj (es s2) x) = pure_obj n (es s2) (okind_of o)
-    /\ lpv (es s2) = map (fun i => Some (column (sP sol) i)) (seq 0 n)
-    /\ exists j, lev (es s2) = map (fun i => Some (nth i (sF sol) 0%Q)) (seq 0 (S (length (lev (es s))))) ++ repeat None j.
+    /\ tail_none (map (fun i => Some (column (sP sol) i)) (seq 0 n)) (lpv (es s2))
+    /\ tail_none (map (fun i => Some (nth i (sF sol) 0%Q)) (seq 0 (S (length (lev (es s)))))) (lev (es s2)).
 Proof. exact fresh_partial. Qed.
 
 (** The guard on the state BEFORE the solve: objects that exist then must hold no cache (on
@@ -87,14 +89,14 @@ Theorem C13_fresh_partial_guard :
     (x < length (objs (es s)) -> cleanb (es s) x = true) ->
     x < length (objs (es (solve s (Some sol)))) ->
     forallb quiet ops = true ->
-    get_obj (es s2) x = Some o ->
+    get_obj (es s2) x = Some o -> okind_of o <> KPoint [] ->
     snd (eval_obj (es s2) x) = pure_obj n (es s2) (okind_of o).
 Proof. exact fresh_partial_guard. Qed.
 
 (** objects built after the solve by the operators (no cache, no reference) are covered as well *)
 Theorem C13_fresh_new_object :
   forall m s k ops o,
-    (forall e, In e (refs_of k) -> False) -> store_ok (es s) -> m = length (lpv (es s)) ->
+    (forall e, In e (refs_of k) -> False) -> k <> KPoint [] -> store_ok (es s) ->
     let x := length (objs (es s)) in
     let s2 := fst (run (with_es s (new_obj (es s) k)) ops) in
     forallb quiet ops = true -> get_obj (es s2) x = Some o ->
